@@ -30,4 +30,52 @@ def run(rep):
     r = core.model_check('MC_Trajectory', c15.mc_cfg(4 if quick else 5, 3, ['ReturnsOk', 'AbsStable']), workers=8, timeout=1800)
     rep.add_model('MC_Trajectory (ReturnsOk along every call sequence)', r)
     c15.leg_b(rep, 60 if quick else 1000, 20, ACTS, judged=JUDGED, seed_off=1, Tmax=14 if quick else 20)
+    long_runs(rep, 10007 if quick else 70001)
     rep.exhaustive = True
+
+
+def long_runs(rep, T):
+    """Scale in the number of FRAMES (beyond any block size an implementation may work in): a walk whose steps repeat with a short
+    period, every step shorter than half a cell.  By the MC_Wrap lemmas (StepsMinImage, Telescoping, ShiftInvariant) the displacements of
+    the wrapped, lattice-shifted coordinates are those steps, whatever the length; the harness holds the real class to that."""
+    import numpy as np
+    from .. import gen
+    core.gemdat_src_first()
+    from pymatgen.core import Lattice, Species
+    from gemdat import Trajectory
+    rng = np.random.default_rng(rep.seed + 101)
+    Ng = 16
+    for fam, orient in (('tric', 'rot'), ('hex', 'pmg')):
+        G = gen.FAMILIES[fam]
+        P, A = 7, 3
+        steps = rng.integers(-5, 6, size=(P, A, 3))
+        steps[0] = rng.integers(1, 6, size=(A, 3))                  # never a zero period
+        allsteps = np.tile(steps, (-(-T // P), 1, 1))[:T]
+        allsteps[0] = 0
+        walk = np.cumsum(allsteps, axis=0)
+        base = rng.integers(0, Ng, size=(A, 3))
+        raw = np.mod(base[None] + walk, Ng) + Ng * rng.integers(-2, 3, size=(T, A, 3))
+        traj = Trajectory(species=[Species('Li')] * A, coords=raw / Ng, lattice=Lattice(gen.lattice_matrix(G, orient, rng)), time_step=1e-15)
+        if fam == 'hex':
+            traj.positions
+        d = np.asarray(traj.displacements) * Ng
+        rep.evaluations += 1
+        rep.nontrivial += 1
+        bad = None
+        if d.shape != allsteps.shape or np.abs(d - allsteps).max() > 1e-9:
+            t_bad = int(np.argwhere(np.abs(d - allsteps).max(axis=(1, 2)) > 1e-9)[0][0]) if d.shape == allsteps.shape else -1
+            bad = ('displacements-not-the-minimum-image-steps-long-run', t_bad)
+        c = np.asarray(traj.cumulative_displacements) * Ng
+        if bad is None and np.abs(c - walk).max() > 1e-6:
+            bad = ('cumulative-displacements-long-run', int(np.argwhere(np.abs(c - walk).max(axis=(1, 2)) > 1e-6)[0][0]))
+        p = np.asarray(traj.positions) * Ng
+        if bad is None and (np.abs(p - np.mod(base[None] + walk, Ng)).max() > 1e-9 or p.min() < 0 or p.max() >= Ng):
+            bad = ('positions-long-run', -1)
+        dist = np.asarray(traj.distances_from_base_position())
+        Gm = np.array(G, dtype=float)
+        expd = np.sqrt(np.einsum('tai,ij,taj->at', walk, Gm, walk)) / Ng
+        if bad is None and np.abs(dist - expd).max() > 1e-9 * max(1.0, expd.max()):
+            bad = ('distance-from-base-long-run', -1)
+        if bad:
+            rep.violation({'kind': 'scale', 'clause': bad[0], 'first_frame': bad[1], 'frames': T, 'family': fam})
+    rep.extra['long_runs'] = {'frames': T, 'period': 7}
